@@ -37,6 +37,12 @@ class AbstractionBreach(Exception):
     pass
 
 
+class MissingFunction(Unsupported):
+    """a harness names a function of the module under test that the current tree does not have (an internal helper was renamed,
+    inlined or removed): the harness has no subject -- neither a verdict nor a failure of the machinery"""
+    pass
+
+
 # ------------------------------------------------------------------ values
 class Obj:
     __slots__ = ('id', 'tree', 'tid', 'label', 'is_global', 'fresh', 'written', 'epoch')
@@ -698,6 +704,8 @@ class Machine:
             return c(self, args)
         f = self.prog.funcs.get(name)
         if f is None:
+            if getattr(self.prog, 'module', None) and self.prog.module in name:
+                raise MissingFunction(name)
             raise Unsupported("no SSA for function %s" % name)
         if 'blocks' not in f:
             raise Unsupported("external function without contract: %s" % name)
